@@ -43,6 +43,11 @@ func Verif_c05_comments() {
 	case 3:
 		src = append([]byte("#!/usr/bin/env bash\n# d\n"), src...)
 	}
+	verifCommentsKept(src, lang)
+}
+
+// verifCommentsKept is the C05 oracle on one source text with symbolic printer options.
+func verifCommentsKept(src []byte, lang LangVariant) {
 	o := verifPrinterOpts()
 	f, err := NewParser(Variant(lang), KeepComments(true)).Parse(bytes.NewReader(src), "")
 	verifAssume(err == nil)
@@ -246,7 +251,7 @@ func Verif_c10_prefix() {
 	src := verifSrc(n)
 	_, err := NewParser(Variant(lang)).Parse(bytes.NewReader(src), "")
 	verifAssume(err == nil)
-	for i := 0; i < n-1; i++ {
+	for i := 0; i < len(src)-1; i++ {
 		if src[i] == '\n' {
 			_, perr := NewParser(Variant(lang)).Parse(bytes.NewReader(src[:i+1]), "")
 			verifAssert(perr == nil || IsIncomplete(perr), "prefix cut at a newline fails without being incomplete")
@@ -344,6 +349,23 @@ func Verif_c11_bats() {
 	}
 	k := 1 + verifChoice("recover", 3)
 	f3, err3 := NewParser(Variant(LangBash), KeepComments(true), RecoverErrors(k)).Parse(bytes.NewReader(src), "")
+	verifAssert(err3 == nil, "RecoverErrors rejects a valid program")
+	if err3 == nil {
+		verifAssert(verifTreeEq(f, f3, 0), "RecoverErrors changes the tree of a valid program")
+	}
+	verifReach("end")
+}
+
+// Verif_c11_recover: in every language variant, enabling error recovery does
+// not change how a valid program parses.
+func Verif_c11_recover() {
+	n := verifParam("n")
+	lang := verifLang(verifParam("lang"))
+	src := verifSrc(n)
+	f, err := NewParser(Variant(lang), KeepComments(true)).Parse(bytes.NewReader(src), "")
+	verifAssume(err == nil)
+	k := 1 + verifChoice("recover", 3)
+	f3, err3 := NewParser(Variant(lang), KeepComments(true), RecoverErrors(k)).Parse(bytes.NewReader(src), "")
 	verifAssert(err3 == nil, "RecoverErrors rejects a valid program")
 	if err3 == nil {
 		verifAssert(verifTreeEq(f, f3, 0), "RecoverErrors changes the tree of a valid program")
